@@ -17,6 +17,9 @@ type BatchedPrivateIssuer struct {
 }
 
 func NewBatchedPrivateIssuer(key *oprf.PrivateKey) *BatchedPrivateIssuer {
+	// oprf.PrivateKey caches its public key lazily and without synchronisation;
+	// compute it now so that concurrent use of the issuer only reads it.
+	key.Public()
 	return &BatchedPrivateIssuer{
 		tokenKey: key,
 	}
